@@ -5,7 +5,6 @@ import (
 	"context"
 	"encoding/json"
 	"fmt"
-	"io"
 	"strings"
 	"time"
 
@@ -42,37 +41,6 @@ func classify(err error) string {
 	return "other: " + s
 }
 
-// drain concatenates a stream of map chunks (distinct keys per chunk are unioned).
-func drainOld(sr interface {
-	Recv() (gprog.Val, error)
-	Close()
-}) (gprog.Val, error, bool) {
-	defer sr.Close()
-	out := gprog.Val{}
-	dup := false
-	n := 0
-	for {
-		c, err := sr.Recv()
-		if err == io.EOF {
-			break
-		}
-		if err != nil {
-			return nil, err, dup
-		}
-		n++
-		for k, v := range c {
-			if _, ok := out[k]; ok {
-				dup = true
-			}
-			out[k] = v
-		}
-	}
-	if n == 0 {
-		return nil, fmt.Errorf("stream is empty"), dup
-	}
-	return out, nil, dup
-}
-
 // runImpl executes one trace on the real implementation.
 func runImpl(r compose.Runnable[gprog.Val, gprog.Val], cs *Case) (res gprog.Val, err error, log []gprog.Entry) {
 	rec := gprog.NewRun(cs.Script)
@@ -86,7 +54,7 @@ func runImpl(r compose.Runnable[gprog.Val, gprog.Val], cs *Case) (res gprog.Val,
 		if e != nil {
 			return nil, e, rec.Snapshot()
 		}
-		res, err, _ = drain(sr)
+		res, err, _ = gprog.Drain(sr)
 	} else {
 		res, err = r.Invoke(ctx, input, opts...)
 	}
